@@ -638,7 +638,7 @@ func (c *Check) totalityRules(parsed map[*ssa.Function]*comparator) {
 		}
 		keys := chainKeys(cm, 0)
 		for i, k := range keys {
-			keys[i] = elemRootRE.ReplaceAllString(k, "·")
+			keys[i] = expandKeyHelper(p, cm, elemRootRE.ReplaceAllString(k, "·"))
 		}
 		if why := w.identity(keys); why == "" {
 			c.ok("C08-R3", key, p.relFile(cm.fn.Pos()), "the order of "+w.what+" is total", "chain "+strings.Join(keys, " , ")+" contains an identity key")
@@ -851,4 +851,31 @@ func calledByOtherComparator(f *ssa.Function, parsed map[*ssa.Function]*comparat
 		}
 	}
 	return false
+}
+
+var keyCallRE = regexp.MustCompile(`^([A-Za-z_][A-Za-z0-9_]*)\((.*)\)$`)
+
+// expandKeyHelper: a key of the form h(arg) where h is a one-line function of the comparator's
+// package (`func h(x T) K { return E }`) is replaced by E with x standing for arg, so that a
+// tie-break key computed by a small named helper is seen for what it is.
+func expandKeyHelper(p *Program, cm *comparator, key string) string {
+	m := keyCallRE.FindStringSubmatch(key)
+	if m == nil || cm.pkg == nil {
+		return key
+	}
+	for _, file := range cm.pkg.Syntax {
+		for _, d := range file.Decls {
+			fd, ok := d.(*ast.FuncDecl)
+			if !ok || fd.Recv != nil || fd.Name.Name != m[1] || fd.Body == nil || len(fd.Body.List) != 1 {
+				continue
+			}
+			ret, ok := fd.Body.List[0].(*ast.ReturnStmt)
+			if !ok || len(ret.Results) != 1 || fd.Type.Params == nil || len(fd.Type.Params.List) != 1 || len(fd.Type.Params.List[0].Names) != 1 {
+				continue
+			}
+			param := fd.Type.Params.List[0].Names[0].Name
+			return strings.ReplaceAll(normKey(p.Fset, ret.Results[0], param), "·", m[2])
+		}
+	}
+	return key
 }
